@@ -2,6 +2,7 @@ package main
 
 import (
 	"fmt"
+	"regexp"
 	"go/token"
 	"go/types"
 	"sort"
@@ -338,7 +339,57 @@ func isTypeParam(t types.Type) bool {
 	return ok
 }
 
+// isIntTypeParam: a type parameter whose type set contains only integer types (e.g. constraints.Integer).
+// Values are mathematical integers of unknown width; arithmetic on them is uninterpreted (tpadd, …).
+func isIntTypeParam(t types.Type) bool {
+	tp, ok := t.(*types.TypeParam)
+	if !ok {
+		return false
+	}
+	iface, ok := tp.Constraint().Underlying().(*types.Interface)
+	if !ok {
+		return false
+	}
+	return allIntegerTerms(iface, 0)
+}
+
+func allIntegerTerms(iface *types.Interface, depth int) bool {
+	if depth > 5 || iface.NumEmbeddeds() == 0 {
+		return false
+	}
+	for i := 0; i < iface.NumEmbeddeds(); i++ {
+		switch u := iface.EmbeddedType(i).(type) {
+		case *types.Union:
+			for j := 0; j < u.Len(); j++ {
+				tt := u.Term(j).Type()
+				if in, ok := tt.Underlying().(*types.Interface); ok {
+					if !allIntegerTerms(in, depth+1) {
+						return false
+					}
+					continue
+				}
+				if !isInteger(tt) {
+					return false
+				}
+			}
+		case *types.Named, *types.Alias:
+			in, ok := u.Underlying().(*types.Interface)
+			if !ok || !allIntegerTerms(in, depth+1) {
+				return false
+			}
+		default:
+			if !isInteger(u) {
+				return false
+			}
+		}
+	}
+	return true
+}
+
 func (e *Enc) sortOf(t types.Type) string {
+	if isIntTypeParam(t) {
+		return "Int"
+	}
 	if isTypeParam(t) {
 		return "TP"
 	}
@@ -390,8 +441,20 @@ func intBits(b *types.Basic) int {
 	return 64
 }
 
+var aliasRe = regexp.MustCompile(`\b(byte|rune)\b`)
+
+// typeKey is the canonical name of a type (byte and rune are spelled uint8 and int32, so that []byte and
+// []uint8 share one element heap).
 func typeKey(t types.Type) string {
 	s := types.TypeString(t, nil)
+	if strings.Contains(s, "byte") || strings.Contains(s, "rune") {
+		s = aliasRe.ReplaceAllStringFunc(s, func(m string) string {
+			if m == "byte" {
+				return "uint8"
+			}
+			return "int32"
+		})
+	}
 	return s
 }
 
@@ -433,6 +496,9 @@ func stripTypeArgs(t types.Type) types.Type {
 }
 
 func elemHeap(elem types.Type) string {
+	if isIntTypeParam(elem) {
+		return "E$TPint"
+	}
 	if isTypeParam(elem) {
 		return "E$TP"
 	}
@@ -440,6 +506,9 @@ func elemHeap(elem types.Type) string {
 }
 
 func cellHeap(t types.Type) string {
+	if isIntTypeParam(t) {
+		return "C$TPint"
+	}
 	if isTypeParam(t) {
 		return "C$TP"
 	}
@@ -447,6 +516,9 @@ func cellHeap(t types.Type) string {
 }
 
 func (e *Enc) zeroOf(t types.Type) Term {
+	if isIntTypeParam(t) {
+		return "0"
+	}
 	if isTypeParam(t) {
 		e.declare("zero-TP", "TP")
 		return "zero-TP"
@@ -468,9 +540,9 @@ func (e *Enc) zeroOf(t types.Type) Term {
 		}
 		return "0"
 	case *types.Slice:
-		return "nil-slice"
+		return "(mk-slice 0 0 0 0)"
 	case *types.Interface:
-		return "nil-iface"
+		return "(mk-iface 0 0)"
 	case *types.Struct:
 		if u.NumFields() == 0 {
 			e.sortOf(t)
@@ -621,6 +693,12 @@ func (e *Enc) load(s *State, l *Loc) Term {
 	t := l.Typ
 	switch l.Kind {
 	case lGlobal:
+		if _, seen := e.declOf["gfacts:"+l.Heap]; !seen {
+			// a package-level variable existed before the call: its entry value is well-formed w.r.t. $alloc@0
+			e.declOf["gfacts:"+l.Heap] = "1"
+			e.heapDecl(l.Heap, e.sortOf(t))
+			e.assumeGFront(e.typeFacts(smtName(l.Heap+"@0"), t, e.init))
+		}
 		return e.hget(s, l.Heap, e.sortOf(t))
 	case lCell:
 		return tSel(e.hget(s, l.Heap, fmt.Sprintf("(Array Int %s)", e.sortOf(t))), l.Base)
